@@ -258,7 +258,14 @@ func (Engine) Run(c *choice.Src, o engine.Opt) (out engine.Out) {
 	if sim.Switches > ntasks {
 		out.Nontrivial = true
 	}
+	out.Faults["sched.context_switch"] += sim.Switches
+	out.Faults["sched.switch_inside_critical_section"] += sim.SwitchInCrit
+	prevTask := -1
 	for _, sw := range sim.Trace {
+		if sw.Site >= 1000000 && sw.Task != prevTask {
+			out.Faults["sched.switch_inside_C_function"]++
+		}
+		prevTask = sw.Task
 		fp = append(fp, fmt.Sprintf("%d@%d", sw.Task, sw.Site))
 		ev("switch to task %d (previous task was at line %d, budget %d)", sw.Task, sw.Site, sw.Budget)
 	}
